@@ -9,6 +9,9 @@ open Gobptree
 
 variable {K V : Type}
 
+theorem NodeOcc.mono {o m m' : Nat} {sh : Shallow K V} (h : NodeOcc o m sh) (hm : m' ≤ m) : NodeOcc o m' sh :=
+  ⟨h.1, Nat.le_trans hm h.2.1, h.2.2⟩
+
 /-- what a stretch of code may assume of the state it starts in -/
 structure Pre (P : Params K) (hole : Option Nat) (s : St K V) : Prop where
   tree  : TreeOk hole s.tree
